@@ -374,6 +374,71 @@ class SeedWrapper(_SeedStep):
         yield "no_hidden_randomness", self.taint.touched == 0 and not outputs_tainted([r1[0], r2[0], r3[0]])
 
 
+@contract("genjax.pjax:Seed.eval_jaxpr_seed", ["C06", "C07", "C14"])
+class SeedNested(_SeedStep):
+    """nested control flow: a site reachable only THROUGH an inner cond (none directly in the enclosing scan body /
+    outer branch) is still keyed below the caller's key: the enclosing scan / cond consumes a sub-key of the interpreter's
+    key whatever it contains, the inner site's key derives from it (never from the staging placeholder key), and
+    distinct caller keys give distinct site keys"""
+
+    cases = ["scan>cond>site", "cond>cond>site"]
+
+    def call(self, case):
+        self.taint = install_taint()
+        self.k0 = J.key_const("k0")
+        self.sA, self.sB = Site(name="A"), Site(name="B")
+
+        def branch(site):
+            u, o = J.Var("u"), J.Var("o")
+            return _closed(J.Jaxpr([], [u], [J.Eqn(site.prim, [u], [o])], [o]))
+
+        inner = {"branches": (branch(self.sA), branch(self.sB))}
+        self.vi = Sym(fresh("idx", z3.IntSort()))
+        self.it = interp(self.k0)
+        if case == "scan>cond>site":
+            cst, car, xv, d = J.Var("cst"), J.Var("car"), J.Var("xv"), J.Var("d")
+            body = _closed(J.Jaxpr([], [cst, car, xv], [J.Eqn(J.cond_p, [cst, xv], [d], inner)], [car, d]))
+            self.T = fresh("T", z3.IntSort())
+            engine().assume(self.T >= 1)
+            k, c0, xs, fc, ys = (J.Var(n) for n in ("k", "c0", "xs", "fc", "ys"))
+            self.vc0 = value("carry0")
+            self.vxs = Tensor.fresh("xs", (self.T,), V)
+            params = {"jaxpr": body, "length": Sym(self.T), "reverse": False, "unroll": 1, "num_consts": 1, "num_carry": 1, "linear": None}
+            jp = J.Jaxpr([], [k, c0, xs], [J.Eqn(J.scan_p, [k, c0, xs], [fc, ys], params)], [fc, ys])
+            return self.real(self.it.eval_jaxpr_seed, jp, [], [self.vi, self.vc0, self.vxs])
+        j2, u2, o2 = J.Var("j2"), J.Var("u2"), J.Var("o2")
+        outer_branch = _closed(J.Jaxpr([], [j2, u2], [J.Eqn(J.cond_p, [j2, u2], [o2], inner)], [o2]))
+        i, j, x, o = J.Var("i"), J.Var("j"), J.Var("x"), J.Var("o")
+        self.vj, self.vx = Sym(fresh("idx_outer", z3.IntSort())), value("x")
+        jp = J.Jaxpr([], [j, i, x], [J.Eqn(J.cond_p, [j, i, x], [o], {"branches": (outer_branch, outer_branch)})], [o])
+        return self.real(self.it.eval_jaxpr_seed, jp, [], [self.vj, self.vi, self.vx])
+
+    def ensures(self, case, path):
+        yield "does_not_raise", path.outcome == "return"
+        if path.outcome != "return":
+            return
+        k0 = self.k0.e
+        yield "enclosing_control_flow_consumes_a_sub_key(interpreter_key_advanced)", same(self.it.key, Sym(Key.L(k0)))
+        for nm, s in (("first", self.sA), ("second", self.sB)):
+            yield f"{nm}_inner_site_is_evaluated_by_its_keyed_sampler(never_rebound)", len(s.calls) >= 1 and not s.binds
+            for n, (key, args, _) in enumerate(s.calls[:2]):
+                ke = _lift(key)
+                if case.startswith("scan"):
+                    # scan induction on the carried key (as in the scan step contract): Inv(t): carried key = sub-key of
+                    # the caller's key; base case below; the site key is read under Inv(t)
+                    scans = path.extra.get("scans", [])
+                    if len(scans) != 1:
+                        yield "one_scan", False
+                        continue
+                    rec = scans[0]
+                    ck = _lift(rec["carry_at"](rec["t"])[0])
+                    ke = z3.substitute(ke, (ck, Key.R(k0)))
+                    yield f"{nm}:carried_key_initialised_with_a_sub_key_of_the_callers_key", same(rec["init"][0], Sym(Key.R(k0)))
+                    yield f"{nm}:carried_key_unchanged", same(rec["new_carry"][0], rec["carry_at"](rec["t"])[0])
+                yield f"{nm}_inner_site_key_{n}_derives_from_the_callers_key(not_from_the_placeholder_key)", J.mentions(ke, k0) and not J.key_uses_tainted(ke)
+        yield "no_hidden_randomness", self.taint.touched == 0 and not outputs_tainted([o for o in path.value if isinstance(o, Sym)])
+
+
 @contract("genjax.pjax:seed", ["C06"])
 class SeedWrapperHistory(_SeedStep):
     """call history: ONE kept wrapper g = seed(f) called with differently STRUCTURED arguments whose leaves have
